@@ -282,6 +282,47 @@ fn check(ctx: &Ctx, c: &Case, case_seed: u64, tmpdir: &std::path::Path) {
         });
     };
 
+    // "a supplied Content-Length only sets the declared body length": probe on a response that is
+    // not printed, so the supplied value need not be the true length (in the printed cases it
+    // always is, which makes a supplied length that is ignored invisible there)
+    {
+        let m = 1 + (case_seed >> 8) as usize % 100_000;
+        let name = ["Content-Length", "content-length", "CONTENT-LENGTH", "Content-length"][(case_seed >> 3) as usize % 4];
+        let (mut r, base): (tiny_http::ResponseBox, &str) = match (case_seed >> 5) % 5 {
+            0 => (Response::from_string("abc").boxed(), "from_string"),
+            1 => (Response::from_data(vec![1u8, 2, 3, 4]).boxed(), "from_data"),
+            2 => (Response::empty(200).boxed(), "empty"),
+            3 => (Response::new(StatusCode(200), Vec::new(), std::io::Cursor::new(vec![0u8; 7]), Some(7), None).boxed(), "new(Some)"),
+            _ => (Response::new(StatusCode(200), Vec::new(), std::io::Cursor::new(vec![0u8; 7]), None, None).boxed(), "new(None)"),
+        };
+        let before = r.data_length();
+        let via = if case_seed & 4 == 0 {
+            r.add_header(hdr(name, &m.to_string()));
+            "add_header"
+        } else {
+            r = r.with_header(hdr(name, &m.to_string()));
+            "with_header"
+        };
+        rep.inc("supplied_length_probes");
+        if r.data_length() != Some(m) {
+            fail(
+                &format!("C19/supplied-length-not-set/{}", base),
+                format!("{} declared {:?}; after {}({}: {}) data_length() = {:?}", base, before, via, name, m, r.data_length()),
+            );
+            return;
+        }
+        if r.headers().iter().any(|h| h.field.equiv("Content-Length")) {
+            fail("C19/supplied-length-listed", format!("{}({}: {}) left a Content-Length field in headers()", via, name, m));
+            return;
+        }
+        // a value that is not a number changes nothing
+        r.add_header(hdr(name, "12x"));
+        if r.data_length() != Some(m) {
+            fail("C19/supplied-length-garbage", format!("Content-Length: 12x changed data_length() to {:?}", r.data_length()));
+            return;
+        }
+    }
+
     // final body and declared length by the reference
     let (final_body, final_declared): (Vec<u8>, Option<usize>) = {
         let (body, decl_by_ctor): (Vec<u8>, Option<usize>) = match (&c.with_data, &c.ctor) {
